@@ -821,6 +821,11 @@ def _pattern_writer(ctx, rf, fn, sent):
             form = True
         elif (a_, b_) in ((1, 0), ("1", "0")):
             form = False
+    elif mark[0] == "call" and mark[1] == ("global", "int") and len(mark[2]) == 1 and not mark[3] and mark[2][0][0] == "cmp" and len(mark[2][0][1]) == 1 \
+            and mark[2][0][1][0] in ("Eq", "NotEq") and mark[2][0][2][0] == cbv and mark[2][0][2][1][0] == "const":
+        # the truth value of the test as the mark: int(entry != sentinel) is 0 for a sentinel entry and 1 otherwise
+        lit = mark[2][0][2][1][1]
+        form = mark[2][0][1][0] == "NotEq"
     sent[("pattern writer", FILE, rline)] = lit
     if form is None or not src_ok:
         ctx.unrec("R5", "pattern-marks", (FILE, rline), f"mark of an entry not understood: {show(cbody)[:100]} over {show(src)[:60]}")
@@ -1059,15 +1064,28 @@ def _r4_reactions(ctx):
                 arg = bound.get("reactions")
                 if arg is None:
                     continue
-                if isinstance(arg, _ast.Name):
-                    # a local bound once stands for the expression it was bound to
-                    once = [st.value for st in _ast.walk(fn) if isinstance(st, _ast.Assign) and len(st.targets) == 1 and isinstance(st.targets[0], _ast.Name)
-                            and st.targets[0].id == arg.id]
-                    arg = once[0] if len(once) == 1 else arg
+                # a local bound once stands for the expression it was bound to (also inside the `or` fall-back)
+                once = {}
+                for st in _ast.walk(fn):
+                    if isinstance(st, _ast.Assign) and len(st.targets) == 1 and isinstance(st.targets[0], _ast.Name):
+                        once.setdefault(st.targets[0].id, []).append(st.value)
+
+                def deref(e, depth=0):
+                    while isinstance(e, _ast.Name) and len(once.get(e.id, [])) == 1 and depth < 4:
+                        e, depth = once[e.id][0], depth + 1
+                    return e
+                arg = deref(arg)
                 src = " ".join(_ast.unparse(arg).split())
-                good = src == "network.reactions" or src.startswith("network.reactions or [Reaction(")
-                if not good and not src.startswith("network."):
-                    # not an attribute of the network at all: which list this is cannot be told from here
+                good = src == "network.reactions"
+                wrong = False
+                if isinstance(arg, _ast.BoolOp) and isinstance(arg.op, _ast.Or) and len(arg.values) == 2 and _ast.unparse(arg.values[0]) == "network.reactions":
+                    # `network.reactions or [<one reaction>]`: the (never used) fall-back for an empty list still counts one reaction
+                    fb = deref(arg.values[1])
+                    good = isinstance(fb, (_ast.List, _ast.Tuple)) and len(fb.elts) == 1 and not isinstance(fb.elts[0], _ast.Starred)
+                elif isinstance(arg, _ast.Attribute) and isinstance(arg.value, _ast.Name) and arg.value.id == "network" and arg.attr != "reactions":
+                    wrong = True        # another list of the network (reaction_list: without the dummy reaction of the empty network)
+                if not good and not wrong:
+                    # not an attribute of the network: which list this is cannot be told from here
                     ctx.unrec("R4", f"{cls}.{meth}:NetworkInfo.reactions", (file, c.lineno), f"NetworkInfo.reactions receives `{src[:80]}`: not read as an attribute of the network")
                     continue
                 ctx.check(good, "R4", f"{cls}.{meth}:NetworkInfo.reactions", (file, c.lineno),
